@@ -10,6 +10,7 @@
    the 11 offsets is re-based correctly, no size_t subtraction wraps. *)
 From Upa Require Import Base.Prelude Spec.Ip Spec.Url Impl.Repr Impl.Serializer.
 From Upa Require Import Proofs.ReprProofs.
+From Upa Require Impl.TraceProto.
 From Coq Require Import ZifyBool ZifyN ZifyNat.
 Local Open Scope N_scope.
 
@@ -1138,3 +1139,10 @@ Proof.
   destruct (setter_password (pieces u) 11 (flags_of u) (segs_of u) file v (pieces_PW u Hs) ltac:(lia) Hhost) as [Hr _].
   cbv zeta in Hr. rewrite Hr, repr_of_conc, (pieces_set_password u v Hh). reflexivity.
 Qed.
+
+(* the normal form the extracted model prints (Impl/TraceProto.v) is the one of the theorems *)
+Lemma fix_tail_m_eq l : forall a, Impl.TraceProto.fix_tail_m a l = fix_tail a l.
+Proof. induction l as [|x l IH]; intro a; [reflexivity|]. cbn [Impl.TraceProto.fix_tail_m fix_tail]. rewrite !IH. reflexivity. Qed.
+
+Lemma norm_tail_m_eq r : Impl.TraceProto.norm_tail_m r = norm_tail r.
+Proof. unfold Impl.TraceProto.norm_tail_m, norm_tail, w_ends. rewrite fix_tail_m_eq. reflexivity. Qed.
